@@ -603,7 +603,9 @@ def _geti2(H, E, I, h, pade):
             # decomp maybe worked ... check it:
             # I = A\(expm(A*h) - Ident)
             I_test = la.lu_solve(lup, h * (E - np.eye(n)))
-            if np.allclose(I_test, I):
+            # (tolerance relative to the size of `I` so that the outcome
+            # does not depend on the units of `A` and `h`)
+            if np.allclose(I_test, I, atol=1e-8 * abs(I).max()):
                 # I2 = A\(expm(A*h)*h - A\(expm(A*h) - Ident))
                 return la.lu_solve(lup, h * (E * h - I_test))
         except RuntimeWarning:
